@@ -534,6 +534,17 @@ CLI = r"""
         let ca_again = ca.clone().self_signed(&ca_key).unwrap();
         let _ = ca_again;
     } }
+    // base names containing dots, and two names that only differ after the last dot: exactly these four files
+    for (leaf, ca) in [("www.example.com", "ca.example.com"), ("local.leaf", "local.root")] {
+        let dir = root.join(format!("names-{}", leaf));
+        assert!(run(&dir, &["--cert-file-name", leaf, "--ca-file-name", ca]), "the CLI fails for dotted base names");
+        let mut got: Vec<String> = std::fs::read_dir(&dir).unwrap().map(|e| e.unwrap().file_name().into_string().unwrap()).collect(); got.sort();
+        let mut want = vec![format!("{}.pem", leaf), format!("{}.key.pem", leaf), format!("{}.pem", ca), format!("{}.key.pem", ca)]; want.sort();
+        assert_eq!(got, want, "files written for --cert-file-name {} --ca-file-name {}", leaf, ca);
+        let ee_key = KeyPair::from_pem(&std::fs::read_to_string(dir.join(format!("{}.key.pem", leaf))).unwrap()).unwrap();
+        let ee_der = pem::parse(std::fs::read_to_string(dir.join(format!("{}.pem", leaf))).unwrap()).unwrap().into_contents();
+        assert!(contains(&ee_der, &ee_key.public_key_der()), "{}.key.pem does not match {}.pem", leaf, leaf);
+    }
     // invalid options exit non-zero
     assert!(!run(&root.join("bad1"), &["--country-name", "N\u{dc}"]), "a non-printable country name is accepted");
     assert!(!run(&root.join("bad2"), &["--san", "\u{fc}.example"]), "a non-ASCII alternative name is accepted");
